@@ -81,6 +81,32 @@ theorem inE_false {s : Schema} {es : Entities} {u1 u2 : EntityUID} (hWF : Schema
         rw [hp1.2] at hdesc
         cases hdesc
 
+theorem entityType?_mem' {s : Schema} {T : EntityType} {et : EntityTypeEntry} (h : s.entityType? T = some et) : (T, et) ∈ s.ets := by
+  unfold Schema.entityType? at h
+  cases hf : s.ets.find? (fun p => p.1 == T) with
+  | none => rw [hf] at h; cases h
+  | some p =>
+    rw [hf] at h
+    simp only [Option.some.injEq] at h
+    have h1 := List.find?_some hf
+    have h2 := List.mem_of_find?_eq_some hf
+    simp only [beq_iff_eq] at h1
+    obtain ⟨p1, p2⟩ := p
+    simp only at h h1
+    subst h; subst h1
+    exact h2
+
+theorem entities_find?_mem : ∀ {es : Entities} {u : EntityUID} {d : EntityData}, es.find? u = some d → (u, d) ∈ es
+  | [], _, _, h => by simp [Entities.find?] at h
+  | (u', d') :: rest, u, d, h => by
+    simp only [Entities.find?] at h
+    split at h
+    · rename_i hu
+      simp only [beq_iff_eq] at hu
+      cases h; subst hu
+      exact List.mem_cons_self
+    · exact List.mem_cons_of_mem _ (entities_find?_mem h)
+
 /-! ### evaluation of `in` on well-typed operands -/
 
 theorem asEntityList_map (us : List EntityUID) : asEntityList (us.map (fun u => Value.prim (.entityUID u))) = .ok us := by
